@@ -432,3 +432,18 @@ func TestD20_FrozenViewTableInvisibleToGC(t *testing.T) {
 	}
 	runtime.KeepAlive(buf)
 }
+
+// #21 C17/C18: Roaring32AsRoaring64 of an empty 32-bit bitmap stored an empty bucket: IsEmpty() was false
+// with cardinality 0, Validate failed, Maximum panicked.
+func TestD21_Roaring32AsRoaring64Empty(t *testing.T) {
+	b := roaring64.Roaring32AsRoaring64(roaring.New())
+	if !b.IsEmpty() {
+		t.Fatalf("IsEmpty() = false for a bitmap of cardinality %d", b.GetCardinality())
+	}
+	if err := b.Validate(); err != nil {
+		t.Fatalf("does not validate: %v", err)
+	}
+	if !b.Equals(roaring64.New()) {
+		t.Fatalf("not Equal to the empty bitmap")
+	}
+}
